@@ -150,7 +150,7 @@ class DataModelFieldBase(_BaseModel):
 
         if self.fall_back_to_nullable:
             if (
-                self.nullable or (self.nullable is None and not self.required)
+                self.nullable or (self.nullable is None and (not self.required or self.type_has_null))
             ) and not self.data_type.use_union_operator:
                 imports.append((IMPORT_OPTIONAL,))
         elif self.nullable and not self.data_type.use_union_operator:  # pragma: no cover
